@@ -46,6 +46,14 @@ static inline PyObject *vpy_of(char v) { return vpy_int(v); }
 static inline bool vpy_equals(PyObject *o, bool v) { return vpy_kind(o) == 3 && (vpy_ival(o) != 0) == v; }
 static inline bool vpy_equals(PyObject *o, double v) { return vpy_kind(o) == 2 && verif_same_scalar<double>(vpy_dval(o), v); }
 static inline bool vpy_equals(PyObject *o, float v) { return vpy_kind(o) == 2 && verif_same_scalar<double>(vpy_dval(o), (double)v); }
+// a Python string result against a std::string: same length (no truncation at NUL) and same bytes (ASCII range)
+#include <string>
+static inline bool verif_same_pystr(PyObject *o, const std::string &s) {
+  if ((size_t)vpy_slen(o) != s.size()) return false;
+  const char *p = vpy_sptr(o);
+  for (size_t i = 0; i < C01_STRMAX + 2; i++) if (i < s.size() && p[i] != s[i]) return false;
+  return true;
+}
 template<class T> static inline bool vpy_equals(PyObject *o, T v) { return (vpy_kind(o) == 1 || vpy_kind(o) == 3) && (T)vpy_ival(o) == v; }
 #endif
 #endif
